@@ -366,6 +366,18 @@ func checkC15(c *Ctx) {
 		r.Ob("NO-HIDDEN-STATE", sc.name+" scope writes no package-level variable", "", len(bad) == 0, fmt.Sprintf("%d functions inspected; %s", nfn, strings.Join(bad, "; ")))
 	}
 
+	// (3b) no third-party object shared between runs
+	{
+		var fns []*ssa.Function
+		for f := range runScope(t) {
+			fns = append(fns, f)
+		}
+		sortFuncs(fns)
+		n, bad := sharedObjects(t, fns)
+		r.Ob("NO-HIDDEN-STATE", "run scope shares no mutable third-party object between runs", "", len(bad) == 0,
+			fmt.Sprintf("%d uses of package-level pointers to foreign struct types inspected (sync.Pool, regexp.Regexp, time.Location accepted); %s", n, strings.Join(bad, "; ")))
+	}
+
 	// (4) registers and flags
 	rce := t.Func(pRT, "RunCallExpr")
 	reset := t.Method(pRT, "PlReg", "Reset")
@@ -495,4 +507,51 @@ func c15ExceptionHolds(t *Tree, typ, field string) bool {
 		return setsChar
 	}
 	return false
+}
+
+// sharedObjects: calls, made from the given functions, that hand a package-level pointer to a mutable object of a
+// type declared outside the module to code outside the module. Such an object carries state from one run (and one
+// goroutine) to the next. sync.Pool (its purpose), *regexp.Regexp and *time.Location (immutable after
+// construction, documented safe for concurrent use) are the only accepted types.
+func sharedObjects(t *Tree, fns []*ssa.Function) (n int, bad []string) {
+	allowed := map[string]bool{"*sync.Pool": true, "*regexp.Regexp": true, "*time.Location": true, "sync.Pool": true}
+	seen := map[string]bool{}
+	for _, f := range fns {
+		allInstrs(f, func(in ssa.Instruction) {
+			// any use of a package-level variable holding (a pointer to) a struct declared outside the module
+			for _, op := range in.Operands(nil) {
+				if op == nil || *op == nil {
+					continue
+				}
+				g, isGlobal := (*op).(*ssa.Global)
+				if !isGlobal {
+					continue
+				}
+				vt := g.Type().(*types.Pointer).Elem() // type of the variable
+				et := vt
+				if p, ok := vt.Underlying().(*types.Pointer); ok {
+					et = p.Elem()
+				}
+				named, isNamed := et.(*types.Named)
+				if !isNamed || named.Obj().Pkg() == nil || strings.HasPrefix(named.Obj().Pkg().Path(), mod) {
+					continue
+				}
+				if _, isStruct := named.Underlying().(*types.Struct); !isStruct {
+					continue
+				}
+				n++
+				ts := types.TypeString(vt, func(p *types.Package) string { return p.Name() })
+				if allowed[ts] {
+					continue
+				}
+				k := fmt.Sprintf("%s uses package variable %s (%s)", relName(f), g.Name(), ts)
+				if !seen[k] {
+					seen[k] = true
+					bad = append(bad, k)
+				}
+			}
+		})
+	}
+	sort.Strings(bad)
+	return n, bad
 }
